@@ -87,6 +87,22 @@ CHECKS["C08"] = (
     "modelled; the Dirichlet formula for monomial integrals is part of the statement (cross-checked). Finite "
     "domain explored exhaustively.")
 
+CHECKS["C09"] = (
+    "Lean 4 reflection (decide +kernel) on shape functions traced symbolically from the live lbasis, with "
+    "soundness theorems against Mathlib's MvPolynomial.pderiv",
+    "For every traceable exported element (50 of them) the (value, declared derivative) polynomials of every local "
+    "basis function are re-extracted on every run by executing the real lbasis on exact symbolic polynomials, and "
+    "the kernel checks: declared gradient / divergence / curl = formal derivative of the declared value, nodal "
+    "duality, partition of unity, flux/circulation duality of lowest-order H(div)/H(curl) elements. Theorems give "
+    "the checks their meaning: the model's formal derivative IS MvPolynomial.pderiv, coefficient-wise closeness "
+    "bounds the pointwise difference on the reference cell, for every traced element/function/point; the power "
+    "basis of globally defined elements delivers the dx-th derivative of x^i for ALL i, dx; Vandermonde duality "
+    "for any linear functionals. Mapped derivatives (pull-back, Piola) of EVERY exported element are compared with "
+    "4th-order finite differences in global coordinates on random affine/multilinear cells.",
+    "Mapped derivatives are search only (no chain-rule theorem yet); ElementLinePp/QuadP, skeleton elements and the "
+    "mesh-dependent functionals of global elements are not traced (numerical search only); which duality/PoU facts "
+    "an element claims is frozen in gens/shape_expect.json (partial).")
+
 NOT_YET = {}
 
 
